@@ -60,6 +60,8 @@ Obj(T, f) == [T |-> T, f |-> f]
 \* objects of kind T: every pattern with 1-item lists; the full value with 0 and 2 item lists; all fields present but zero
 Objs(T) ==
   {Obj(T, Gen(T, 1, 1, p, TRUE)) : p \in Patterns(T)}
+  \* thorough tier: every pattern again with other symbols and two-item lists
+  \cup (IF Big THEN {Obj(T, Gen(T, 4, 2, p, TRUE)) : p \in Patterns(T)} ELSE {})
   \cup {Obj(T, Gen(T, 3, n, Pat("all", 0), TRUE)) : n \in {0, 2}}
   \cup {Obj(T, Gen(T, 2, 2, Pat(b, 1), TRUE)) : b \in {"bit", "cobit"}}
   \cup {Obj(T, Fill(T, << >>))}
